@@ -121,8 +121,29 @@ def special_model_2():
     return m
 
 
+def special_model_3():
+    """a usage pattern with three devices, one of which is already amortised (fabrication footprint 0) and one of which draws no
+    power; two jobs in one step, one of which transfers nothing"""
+    m = {}
+    m["sto1"] = efx.new_obj("Storage")
+    m["sv1"] = efx.new_obj("Server", storage="sto1")
+    m["j1"] = efx.new_obj("Job", server="sv1", data_transferred=[0, "kB"])
+    m["j2"] = efx.new_obj("Job", server="sv1", data_transferred=[400, "kB"], data_stored=[0, "kB"])
+    m["s1"] = efx.new_obj("UsageJourneyStep", jobs=["j1", "j2"])
+    m["uj1"] = efx.new_obj("UsageJourney", uj_steps=["s1"])
+    m["d1"] = efx.new_obj("Device", carbon_footprint_fabrication=[0, "kg"])
+    m["d2"] = efx.new_obj("Device", power=[0, "W"])
+    m["d3"] = efx.new_obj("Device", power=[20, "W"], carbon_footprint_fabrication=[60, "kg"])
+    m["n1"], m["c1"] = efx.new_obj("Network"), efx.new_obj("Country")
+    m["up1"] = efx.new_obj("UsagePattern", usage_journey="uj1", network="n1", country="c1", devices=["d1", "d2", "d3"],
+                           starts=[3, 1, 4, 1, 5])
+    m["up2"] = efx.new_obj("UsagePattern", usage_journey="uj1", network="n1", country="c1", devices=["d3", "d1"], starts=[2, 7, 1])
+    m["sys"] = efx.new_obj("System", usage_patterns=["up1", "up2"])
+    return m
+
+
 def model_of_seed(seed):
-    return {-1: special_model, -2: special_model_2}[seed]() if seed < 0 else prepared_model(random.Random(seed))
+    return {-1: special_model, -2: special_model_2, -3: special_model_3}[seed]() if seed < 0 else prepared_model(random.Random(seed))
 
 
 def child_dump(seeds):
@@ -169,7 +190,7 @@ def run(tier, out):
         n_models = 20 if tier == "quick" else 300
         events, tid = [], 0
         refs = {}
-        for seed in [-1, -2] + list(range(base, base + n_models)):
+        for seed in [-1, -2, -3] + list(range(base, base + n_models)):
             rng = random.Random(seed)
             model = model_of_seed(seed)
             rng.random()
@@ -196,7 +217,7 @@ def run(tier, out):
                 sibling("identifiers-and-set-order(rebuild)", model)
             for k in range(2):
                 sibling("creation-order", model, order=permuted_order(rng, model))
-            for k in range(2):
+            for k in range(2 if seed >= 0 else 6):
                 sibling("order-of-usage-patterns-devices-same-step-jobs", shuffle_irrelevant_lists(rng, model))
             sn = same_name_variant(rng, model)
             if sn:
